@@ -44,6 +44,9 @@ pub enum Op {
     Add { ks: String, table: String, first: i64, last: i64, replicas: Vec<(Host, i32)> },
     /// arbitrary payload value bytes (`None`: the tablet key is absent from the payload)
     Raw { ks: String, table: String, value: Option<Vec<u8>> },
+    /// several well-formed payloads handed over in ONE batch, in this order (as when several responses carried
+    /// tablets between two wake-ups of the cluster worker): (ks, table, first, last, replicas)
+    Batch { items: Vec<(String, String, i64, i64, Vec<(Host, i32)>)> },
     /// `partial`: only the peer list is re-read (`ClusterState::new_with_updated_topology`);
     /// `keyspaces` then repeats the schema in force and is not handed to the driver
     Refresh { peers: Vec<PeerSpec>, keyspaces: Vec<KsSpec>, partial: bool },
@@ -139,6 +142,9 @@ impl Op {
             Op::Raw { ks, table, value } => json!({
                 "op": "raw", "ks": ks, "table": table, "value_hex": value.as_ref().map(|v| fw::hex(v)),
             }),
+            Op::Batch { items } => json!({"op": "batch", "items": items.iter().map(|(ks, table, first, last, replicas)| json!({
+                "ks": ks, "table": table, "first_exclusive": first, "last": last,
+                "replicas": replicas.iter().map(|(h, s)| json!([hosthex(*h), s])).collect::<Vec<_>>()})).collect::<Vec<_>>()}),
             Op::Refresh { peers, keyspaces, partial } => json!({"op": "refresh", "partial": partial, "peers": peers_json(peers), "keyspaces": kss_json(keyspaces)}),
         }
     }
@@ -154,6 +160,21 @@ impl Op {
                     .as_array()?
                     .iter()
                     .map(|r| (unhosthex(r[0].as_str().unwrap_or("0")), r[1].as_i64().unwrap_or(0) as i32))
+                    .collect(),
+            },
+            "batch" => Op::Batch {
+                items: v["items"]
+                    .as_array()?
+                    .iter()
+                    .map(|i| {
+                        (
+                            i["ks"].as_str().unwrap_or("").to_owned(),
+                            i["table"].as_str().unwrap_or("").to_owned(),
+                            i["first_exclusive"].as_i64().unwrap_or(0),
+                            i["last"].as_i64().unwrap_or(0),
+                            i["replicas"].as_array().map(|a| a.iter().map(|r| (unhosthex(r[0].as_str().unwrap_or("0")), r[1].as_i64().unwrap_or(0) as i32)).collect()).unwrap_or_default(),
+                        )
+                    })
                     .collect(),
             },
             "raw" => Op::Raw { ks: s("ks"), table: s("table"), value: v["value_hex"].as_str().map(fw::unhex) },
@@ -438,6 +459,30 @@ impl<'r> World<'r> {
                     (Ok(Ok(false)), _) => fail("payload:ignored", format!("payload ({first}, {last}] under the tablet key was reported as absent")),
                 }
             }
+            Op::Batch { items } => {
+                let mut batch = Vec::new();
+                for (ks, table, first, last, replicas) in items {
+                    self.tables.insert((ks.clone(), table.clone()));
+                    batch.push((ks.clone(), table.clone(), payload_of(model::enc_tablet(*first, *last, replicas))));
+                }
+                let got = match fw::catch(|| self.probe.add_tablets_batch(&batch)) {
+                    Ok(g) => g,
+                    Err(p) => return fail("payload:panic", format!("feeding a batch of {} payloads panicked: {p}", items.len())),
+                };
+                // the batch is learnt in the order given: the later of two overlapping tablets wins
+                self.model.last_discarded.clear();
+                for (i, (ks, table, first, last, replicas)) in items.iter().enumerate() {
+                    match (got.get(i).copied().unwrap_or(false), model::admit(*first, *last, replicas)) {
+                        (true, Ok((f, l, r))) => {
+                            self.model.learn(ks, table, f, l, r);
+                        }
+                        (false, Err(_)) => {}
+                        (true, Err(why)) => return fail("payload:inadmissible-accepted", format!("batched payload ({first}, {last}] {replicas:?} was accepted although it must be refused ({why:?})")),
+                        (false, Ok(_)) => return fail("payload:admissible-refused", format!("batched payload ({first}, {last}] {replicas:?} was refused")),
+                    }
+                }
+                Ok("batch")
+            }
             Op::Raw { ks, table, value } => {
                 self.tables.insert((ks.clone(), table.clone()));
                 let mut payload: HashMap<String, Bytes> = HashMap::new();
@@ -547,6 +592,13 @@ pub fn queries_around(model: &Model, op: Option<&Op>, extra: &[i64], cap: usize,
         around(&mut must, *last);
         must.push(first.saturating_add(1).saturating_add(1));
         must.push(((*first as i128 + *last as i128) / 2) as i64);
+    }
+    if let Some(Op::Batch { items }) = op {
+        for (_, _, first, last, _) in items {
+            around(&mut must, *first);
+            around(&mut must, *last);
+            must.push(((*first as i128 + *last as i128) / 2) as i64);
+        }
     }
     for d in &model.last_discarded {
         around(&mut must, d.first);
